@@ -435,10 +435,43 @@ def b_hooks(tier):
     return b
 
 
+def b_argument_shapes(tier):
+    """Calls whose extra arguments differ only in how they are passed or spelled must not share an entry."""
+    import pymbolic.primitives as p
+    from contracts import fixtures_opt as fx
+    b = BoundedRun("argument-shapes", rule="one memoizing renamer instance (its handler's result depends on the extra arguments), the same expression, two calls whose extra arguments differ "
+                   "only in shape - a positional (name, value) pair against the keyword name=value, a positional tuple against the same values spread, a keyword against a positional "
+                   "value, nested against flat tuples, a string against its characters, None against nothing, equal numbers of different type (1, 1.0, True: known finding) - in both "
+                   "orders: each call returns what a fresh plain mapper returns", bound="14 ambiguous argument pairs x 2 orders x 6 expressions",
+                   functions=["CachedMapper.get_cache_key", "CachedMapper.__call__"])
+    x, y = trees.X, trees.Y
+    exprs = [x, p.Sum((x, y)), p.Product((x, 2, x)), p.Call(trees.F, (x, p.Sum((x, 1)))), p.CommonSubexpression(p.Sum((x, y))), p.Quotient(x, p.Power(y, x))]
+    shapes = [(((("k", 1),), {}), ((), {"k": 1})), (((7, ("k", 5)), {}), ((7,), {"k": 5})), ((((1, 2),), {}), ((1, 2), {})), (((1,), {}), ((), {"k": 1})),
+              (((("k", 1), ("l", 2)), {}), ((), {"k": 1, "l": 2})), (((), {"k": 1, "l": 2}), ((), {"k": 2, "l": 1})), ((((1,), 2), {}), ((1, (2,)), {})), ((("ab",), {}), (("a", "b"), {})),
+              (((None,), {}), ((), {})), (((), {"k": None}), ((), {})), (((("k", 1),), {"l": 2}), ((("l", 2),), {"k": 1})), (((), {"k": ("l", 2)}), ((), {"k": "l", "l": 2})),
+              (((1,), {}), ((1.0,), {})), (((1,), {}), ((True,), {})), (((), {"k": 1}), ((), {"k": 1.0}))]
+    for e in exprs:
+        for first, second in shapes:
+            for order in ((first, second), (second, first)):
+                cm = fx.CachedRenamer()
+                for turn, (a, kw) in enumerate(order):
+                    got = outcome.run(lambda: cm(e, *a, **kw))
+                    want = outcome.run(lambda: fx.Renamer()(e, *a, **kw))
+                    b.case((repr(e), repr(order), turn), nontrivial=turn == 1, sample=dict(expr=repr(e)[:60], calls=repr(order)))
+                    if not (got[0] == want[0] == "val" and _tree_typed_eq(got[1], want[1])):
+                        typed = any(type(u) is not type(v) and u == v for u, v in zip(list(order[0][0]) + sorted(order[0][1].values(), key=repr), list(order[1][0]) + sorted(order[1][1].values(), key=repr))
+                                    if isinstance(u, (int, float)) and isinstance(v, (int, float))) and len(order[0][0]) == len(order[1][0]) and sorted(order[0][1]) == sorted(order[1][1])
+                        cause = "cause=extra-argument-type " if typed else ""
+                        b.fail(Failure("argument-shapes", f"{cause}expr={e!r} calls={order!r} turn={turn}", dict(kind="argshapes", expr=trees.src(e), calls=repr(order), turn=turn),
+                                       expected=outcome.describe(want)[:150], actual=outcome.describe(got)[:150], functions=["CachedMapper.get_cache_key"]))
+                        break
+    return b
+
+
 def bounded(tier, seed, procs):
-    return [b_histories(tier), b_once(tier), b_types(tier), b_optimizer(tier), b_errors(tier), b_hooks(tier)]
+    return [b_histories(tier), b_once(tier), b_types(tier), b_optimizer(tier), b_errors(tier), b_hooks(tier), b_argument_shapes(tier)]
 
 
 def replay(case):
-    f = {"hist": b_histories, "once": b_once, "types": b_types, "herr": b_errors, "hooks": b_hooks}.get(case.get("kind"), b_optimizer)
+    f = {"hist": b_histories, "once": b_once, "types": b_types, "herr": b_errors, "hooks": b_hooks, "argshapes": b_argument_shapes}.get(case.get("kind"), b_optimizer)
     return any(x.case == case for x in f("quick").failures)
